@@ -356,7 +356,7 @@ impl<'w> Ctx<'w> {
             Pat::Ident(i) if i.subpat.is_none() => {
                 let n = i.ident.to_string();
                 if n == "None" {
-                    return Ok("none".into());
+                    return Ok("Option.none".into());
                 }
                 Ok(self.bind(&n, ty))
             }
@@ -376,7 +376,7 @@ impl<'w> Ctx<'w> {
                 }
                 let inner = self.pattern(&ts.elems[0], &inner_ty, None, aliases)?;
                 Ok(match last.as_str() {
-                    "Some" => format!("some {}", inner),
+                    "Some" => format!("Option.some {}", inner),
                     "Included" => format!(".included {}", inner),
                     _ => format!(".excluded {}", inner),
                 })
@@ -385,7 +385,7 @@ impl<'w> Ctx<'w> {
                 let name = path_str(&pp.path);
                 let last = name.rsplit("::").next().unwrap();
                 match (&ty, last) {
-                    (Ty::Opt(_), "None") => Ok("none".into()),
+                    (Ty::Opt(_), "None") => Ok("Option.none".into()),
                     (Ty::Bound(_), "Unbounded") => Ok(".unbounded".into()),
                     (Ty::Named(en), v) if self.w.enums.get(en).map_or(false, |vs| vs.iter().any(|(x, _)| x == v)) => Ok(format!(".{}", lower_first(v))),
                     _ => Err(format!("path pattern {} against {:?}", name, ty)),
@@ -516,7 +516,7 @@ impl<'w> Ctx<'w> {
             if let Some((ptxt, ln)) = wb {
                 let pe: Expr = syn::parse_str(&ptxt).map_err(|e| e.to_string())?;
                 let pl = self.place_of(&pe).ok_or("write-back place")?;
-                out.push(format!("{}{}", ind(n + 1), self.place_write(&pl, &format!("(some {})", ln))));
+                out.push(format!("{}{}", ind(n + 1), self.place_write(&pl, &format!("(Option.some {})", ln))));
             }
             self.vars.pop();
         }
